@@ -78,8 +78,8 @@ VECTORS = {'C01': ['add', 'sub', 'mul', 'div', 'sqrt'], 'C02': ['fma'], 'C03': [
 for _k, _v in VECTORS.items(): PROPS[_k]['streams'].insert(0, ('vectors', K.gen_vectors(_v), 60000, 400000))
 
 # layer I (translated routines): (groups of layerI/rs2v.py to translate, routines whose theorems are obligations of the property)
-LAYER_I = {'C13': ('A,C', ['bid128_is_signed', 'bid128_is_nan', 'bid128_is_inf', 'bid128_is_signaling', 'bid128_is_finite', 'bid128_is_zero', 'bid128_is_canonical',
-                           'bid128_is_normal', 'bid128_is_subnormal', 'bid128_class']),
+LAYER_I = {'C13': ('A,C,X', ['bid128_is_signed', 'bid128_is_nan', 'bid128_is_inf', 'bid128_is_signaling', 'bid128_is_finite', 'bid128_is_zero', 'bid128_is_canonical',
+                           'bid128_is_normal', 'bid128_is_subnormal', 'bid128_class', 'bid128_fdim']),   # X: fdim over abstract quiet_greater / sub (conditional theorem)
            'C12': ('A', ['bid128_copy', 'bid128_negate', 'bid128_abs', 'bid128_copy_sign']),
            'C09': ('A,B', ['bid128_same_quantum', 'bid128_quantexp', 'bid128_llquantexp', 'bid128_quantum']),
            'C06': ('B,W', ['bid128_from_int32', 'bid128_from_uint32', 'bid128_from_int64', 'bid128_from_uint64',
